@@ -70,6 +70,10 @@ Shape(i, s, o1, o2) ==
     [] i = 41 -> [rw |-> Un(<<This, TTU("a", o1)>>), restr |-> <<Ty("ghost")>>]                   \* ... and a direct restriction to it
     [] i = 42 -> [rw |-> This, restr |-> <<Us("doc", o1), Us("doc", o2)>>]                        \* two usersets: a cycle member with a way out
     [] i = 43 -> [rw |-> In(<<This, CU("a")>>), restr |-> <<Ty("grp")>>]                          \* no common user type (reached from inside an open cycle when 42 points here)
+    \* operators with ONE operand (JSON / protobuf only): every operator occurrence is a node of its own, also when it has a single child
+    [] i = 44 -> [rw |-> Un(<<This>>), restr |-> <<Ty("user")>>]
+    [] i = 45 -> [rw |-> In(<<CU(o1)>>), restr |-> <<>>]
+    [] i = 46 -> [rw |-> Un(<<In(<<This>>), Un(<<CU(o1)>>), In(<<TTU("a", "p")>>)>>), restr |-> <<Ty("user"), Wi("user")>>]
     [] i = 23 -> [rw |-> Un(<<TTU("a", "q"), This>>), restr |-> <<TyC("user", "c"), Ty("user"), Wi("user")>>]
 
 FreeNames == IF NFree = 2 THEN <<"x", "y">> ELSE <<"x", "y", "z">>
